@@ -105,6 +105,7 @@ def run(run, tier, replay=None):
     scopes_corr(run, tier, scope_replay)
     enum_scope_corr(run, tier, [c for c in scope_replay if c.get("scope") in ("decls", "enumdoc")] if scope_replay is not None else None)
     tree_oracle(run, tier, [c for c in scope_replay if c.get("scope") == "tree"] if scope_replay is not None else None)
+    params2_corr(run, tier, [c for c in scope_replay if c.get("scope") == "params2"] if scope_replay is not None else None)
     procprops_corr(run, tier, pp_replay)
     if not replay:
         scopes(run, tier)
@@ -685,6 +686,228 @@ def _enum_tables_oracle(run, case, surviving_declared, enum_classes, reported, d
         if not any(sorted(map(repr, h)) == sorted(map(repr, w)) for h in held):
             run.violation("oracle", {"scope_case": case, "declared": vs, "by": who, "classes": enum_classes,
                                      "note": "a declared enum is neither reported nor held by any generated class with exactly its values: it was merged silently into another enum"})
+
+
+# ------------------------------------------------------------------ one operation's parameters split between the path item and the operation
+LONE_POOL = ["client", "url", "Client", "URL", "class", "self", "import", "None", "id", "user_id", "2fa", "$$", "a-b"]
+
+
+def gen_param2_case(rng):
+    """(operation-level list | None, path-item-level list | None): the parameters of one operation split in every proportion
+    (0+1, 1+0, 1+1, 1+n, n+1, n+m, absent vs empty list), with derived names colliding ACROSS the two lists in the same and in
+    different locations, reserved names alone in a list, and keys present in both lists (the operation-level one wins)."""
+    mode = rng.choice(["0+1", "0+1", "1+0", "1+1", "1+1", "1+n", "1+n", "n+1", "n+1", "n+m", "n+m", "dupkey"])
+    if mode in ("0+1", "1+0"):
+        lone = [(rng.choice(LOC_ORDER), rng.choice(LONE_POOL) if rng.random() < 0.8 else (S.rand_str(rng, S.ORD, 5) or "x"))]
+        other = rng.choice([None, None, []])
+        return (other, lone) if mode == "0+1" else (lone, other)
+    full = gen_param_list(rng)
+    if mode == "1+1":
+        loc0, nm0 = full[0]
+        r = rng.random()
+        if r < 0.35:
+            twin = (rng.choice([l for l in LOC_ORDER if l != loc0]), rng.choice([nm0, nm0.upper(), nm0.capitalize()]))      # location twin
+        elif r < 0.7:
+            twin = (loc0, _variants(rng, [w for w in nm0.replace("-", " ").replace("_", " ").split(" ") if w] or ["x"]))    # same location, other spelling
+        elif r < 0.85:
+            twin = (rng.choice(LOC_ORDER), rng.choice(["client", "url", "Client", "URL"]))
+        else:
+            twin = full[1]
+        if twin == full[0] or not twin[1]:
+            twin = (loc0, nm0 + "_x")
+        return ([full[0]], [twin]) if rng.random() < 0.5 else ([twin], [full[0]])
+    if mode == "1+n":
+        k = rng.randrange(len(full))
+        return [full[k]], full[:k] + full[k + 1:]
+    if mode == "n+1":
+        k = rng.randrange(len(full))
+        return full[:k] + full[k + 1:], [full[k]]
+    if mode == "dupkey":
+        k = rng.randrange(len(full))
+        return full, [full[k]] + ([(rng.choice(LOC_ORDER), rng.choice(LONE_POOL))] if rng.random() < 0.5 else [])
+    cut = rng.randint(1, len(full) - 1)
+    op, item = full[:cut], full[cut:]
+    if rng.random() < 0.3 and op:
+        item = item + [rng.choice(op)]            # also present at the operation level: ignored there
+    item = list(dict.fromkeys(item))
+    return op, item
+
+
+def real_params2(op, item):
+    """The two real Endpoint.add_parameters calls of one operation (operation data first, then the path item), as from_data makes them."""
+    from openapi_python_client import schema as oai
+    from openapi_python_client.parser.properties import Schemas, Parameters
+    from openapi_python_client.parser.openapi import Endpoint
+    from openapi_python_client.parser.errors import ParseError
+
+    def plist(ps):
+        return [{"name": n, "in": l, "required": True, "schema": {"type": "string"}} for l, n in ps]
+    opd = {"responses": {}}
+    if op is not None:
+        opd["parameters"] = plist(op)
+    itd = {}
+    if item is not None:
+        itd["parameters"] = plist(item)
+    ep = Endpoint(path="/p", method="get", summary="", description="", name="op", requires_security=False, tags=[])
+    r, sch, par = Endpoint.add_parameters(endpoint=ep, data=oai.Operation.model_validate(opd), schemas=Schemas(), parameters=Parameters(), config=_cfg())
+    if isinstance(r, ParseError):
+        return ("ERR", str(r.detail))
+    r, _, _ = Endpoint.add_parameters(endpoint=r, data=oai.PathItem.model_validate(itd), schemas=sch, parameters=par, config=_cfg())
+    if isinstance(r, ParseError):
+        return ("ERR", str(r.detail))
+    return [(str(l), p.name, str(p.python_name)) for l, p in r.iter_all_parameters()]
+
+
+def copt_params(ps):
+    return "None" if ps is None else f"(Some {cparams(ps)})"
+
+
+_PATH_OK = __import__("re").compile(r"[a-zA-Z_-][a-zA-Z0-9_-]*\Z")
+
+
+def param2_doc(op, item):
+    """The same split as a document (None when a path parameter's name cannot appear in a path template)."""
+    keys = list(dict.fromkeys((op or []) + (item or [])))
+    pnames = [n for l, n in keys if l == "path"]
+    if any(not _PATH_OK.match(n) for n in pnames) or len(set(pnames)) != len(pnames):
+        return None
+    if any(not ch.isprintable() or ch in '"\\' for _, n in keys for ch in n):
+        return None   # quoting of names inside generated string literals is C05's subject (findings nul_char, name_backslash)
+    def plist(ps):
+        return [{"name": n, "in": l, "required": True, "schema": {"type": "string"}} for l, n in ps]
+    path = "/p" + "".join("/{%s}" % n for n in pnames)
+    opd = {"operationId": "op", "responses": {"200": {"description": "ok"}}}
+    if op is not None:
+        opd["parameters"] = plist(op)
+    pi = {"get": opd}
+    if item is not None:
+        pi["parameters"] = plist(item)
+    return impl.base_doc(paths={path: pi})
+
+
+def params2_corr(run, tier, replay_cases=None):
+    rng = run.rng
+    n = 700 if tier == "quick" else 8000
+    ngen = 50 if tier == "quick" else 500
+    if replay_cases is not None:
+        def lt(x):
+            return None if x is None else [tuple(y) for y in x]
+        cases = [(lt(c["input"][0]), lt(c["input"][1])) for c in replay_cases]
+    else:
+        cases = [([("query", "userId"), ("query", "limit")], [("header", "user_id")]),
+                 ([("query", "userId"), ("query", "limit")], [("query", "user_id")]),
+                 (None, [("query", "client")]), ([], [("header", "url")]), ([("path", "url")], None), ([("query", "client")], []),
+                 ([("query", "x")], [("header", "x")]), ([("query", "a b")], [("query", "a_b")]), ([("query", "class")], [("header", "Class")]),
+                 ([("query", "id"), ("header", "id")], [("cookie", "id_query")]),
+                 ([("path", "x_header_path"), ("path", "x_header"), ("query", "X")], [("header", "x")])]
+        cases += [gen_param2_case(rng) for _ in range(n)]
+    terms, meta = [], []
+    for op, item in cases:
+        case = {"scope": "params2", "input": [op, item]}
+        for lst in (op, item):
+            assert lst is None or len(set(lst)) == len(lst)
+        got = real_params2(op, item)
+        if isinstance(got, tuple):
+            if "Parameters with same Python identifier" not in got[1]:
+                run.violation("correspondence", {"scope_case": case, "impl": got, "note": "unexpected error kind from Endpoint.add_parameters"})
+                continue
+            obs = "Err"
+        else:
+            obs = f"Ok {cstrs([g[2] for g in got])}"
+        terms.append(f"rse (param_pys (model_params2 fp {copt_params(op)} {copt_params(item)})) ({obs})")
+        meta.append((case, op, item, got))
+        shape = "%s+%s" % tuple("-" if l is None else ("n" if len(l) > 1 else str(len(l))) for l in (item, op))
+        run.note_case({**case, "impl": got}, nontrivial=True, kind="scope-params2/item+op=" + shape)
+    bad = run_cases(HDR2, terms, shard=120)
+    run.corr["cases"] += len(terms)
+    run.corr["mismatches"] += len(bad)
+    run.corr["what"] += ("; the two real Endpoint.add_parameters calls of one operation (operation list, then path-item list; every split 0+1 .. n+m, absent / empty lists) "
+                         "-> python names of all parameters or ParseError == Scopes.model_params2")
+    for i in bad[:10]:
+        case, op, item, got = meta[i]
+        model = coq_eval(HDR2, f"param_pys (model_params2 fp {copt_params(op)} {copt_params(item)})")
+        run.violation("correspondence", {"scope_case": case, "impl": got, "model": model[-400:],
+                                         "note": "parameters split between path item and operation: the conflict check no longer computes Scopes.model_params2 (model_params2_distinct_quiet does not apply)"})
+    badset = set(bad)
+    # ---- oracle on the threaded outputs, classified by the Coq guard on exactly the failing inputs
+    fails = []
+    for k, (case, op, item, got) in enumerate(meta):
+        if k in badset or isinstance(got, tuple):
+            continue
+        py = [g[2] for g in got]
+        dup = len(set(py)) != len(py) or any(x in ("client", "url") for x in py)
+        invalid = [x for x in py if not x.isidentifier() or keyword.iskeyword(x)]
+        if dup or invalid:
+            fails.append((case, op, item, got, py, dup, invalid))
+    quiet_false = set()
+    if fails:
+        gb = run_cases(HDR2, [f"g_params2_quiet fp {copt_params(op)} {copt_params(item)}" for _, op, item, _, _, _, _ in fails] +
+                       [f"forallb g_xid {cstrs([g[1] for g in got])}" for _, _, _, got, _, _, _ in fails], shard=100)
+        quiet_false = {i for i in gb if i < len(fails)}
+        xid_false = {i - len(fails) for i in gb if i >= len(fails)}
+    known_dup_inputs = []
+    from openapi_python_client.utils import PythonIdentifier
+    for k, (case, op, item, got, py, dup, invalid) in enumerate(fails):
+        if dup:
+            if k not in quiet_false:
+                run.violation("oracle", {"scope_case": case, "python_names": py, "note": "inside the proved domain (g_params2_quiet true) yet the python names of one operation's parameters are not pairwise distinct / reserved"})
+            elif run.known_finding("param_rename_unchecked", f"operation parameters op={op!r} path-item={item!r} -> python names {py!r}: a rename made in the last run of _check_parameters_for_conflicts is not re-checked"):
+                known_dup_inputs.append((op, item))
+            else:
+                run.violation("oracle", {"scope_case": case, "python_names": py, "note": "two parameters silently share one python name"})
+        if invalid:
+            rawfb = all(any(x == str(PythonIdentifier(g[1], "field_", skip_snake_case=True)) and x != str(PythonIdentifier(g[1], "field_")) and g[2] == x for g in got) for x in invalid)
+            if rawfb and run.known_finding("raw_fallback", f"params2: {op!r} + {item!r} collide after snake_case; raw-name fallback yields {invalid!r} (not identifiers)"):
+                continue
+            if k in xid_false and run.known_finding("xid_gap", f"params2: {op!r} + {item!r} -> {invalid!r} not identifiers (\\w character outside XID_Continue survives sanitize)"):
+                continue
+            run.violation("oracle", {"scope_case": case, "python_names": py, "invalid": invalid, "note": "python name is not a valid non-keyword identifier (not a raw-name fallback, no xid-gap character)"})
+    # ---- the same splits as documents through the whole generator: parser result == threaded result, generated endpoint module compiles
+    docs = []
+    for case, op, item, got in meta:
+        d = param2_doc(op, item)
+        if d is not None:
+            docs.append((case, op, item, got, d))
+    if replay_cases is None and len(docs) > ngen:
+        docs = docs[:11] + rng.sample(docs[11:], ngen - 11)
+    for case, op, item, got, doc in docs:
+        with impl.Gen(doc) as g:
+            diags = g.diag()
+            if g.exc is not None:
+                run.violation("oracle", {"scope_case": case, "note": "generation raised", "error": repr(g.exc)})
+                continue
+            mods = {k: v for k, v in g.files().items() if k.startswith("api/") and k.endswith(".py")}
+        run.note_case({"scope": "params2-doc", "input": [op, item]}, nontrivial=True, kind="scope-params2/generated")
+        opmods = [k for k in mods if k.endswith("/op.py")]
+        if isinstance(got, tuple):
+            if opmods or not diags:
+                run.violation("oracle", {"scope_case": case, "impl": got, "diagnostics": diags, "modules": sorted(mods),
+                                         "note": "the conflict check reports an error for this split but the document generates the endpoint / prints no diagnostic"})
+            continue
+        if not opmods:
+            if not diags:
+                run.violation("oracle", {"scope_case": case, "note": "endpoint dropped without diagnostic"})
+            continue
+        src = mods[opmods[0]].decode("utf-8")
+        try:
+            tree = compile(src, opmods[0], "exec", flags=__import__("ast").PyCF_ONLY_AST)
+            compile(src, opmods[0], "exec")
+        except SyntaxError as e:
+            py = [g_[2] for g_ in got]
+            if (op, item) in known_dup_inputs or any(not x.isidentifier() for x in py):
+                continue   # already reported above as a listed finding of this very input
+            run.violation("oracle", {"scope_case": case, "python_names": py, "error": str(e), "note": "generated endpoint module does not compile"})
+            continue
+        import ast as _ast
+        fn = [f for f in tree.body if isinstance(f, _ast.FunctionDef) and f.name == "_get_kwargs"]
+        args = [a.arg for a in fn[0].args.args + fn[0].args.kwonlyargs] if fn else []
+        import unicodedata as _ud
+        want = [_ud.normalize("NFKC", g_[2]) for g_ in got]   # CPython NFKC-normalises identifiers
+        if any(not x.isidentifier() for x in want):
+            continue   # reported above (raw_fallback / xid_gap) for this very input
+        if sorted(args) != sorted(want):
+            run.violation("oracle", {"scope_case": case, "signature": args, "python_names": want,
+                                     "note": "_get_kwargs of the generated module does not take exactly the python names the two add_parameters calls produce for this split"})
 
 
 # ------------------------------------------------------------------ generated trees: module / package names
